@@ -88,7 +88,7 @@ class C02:
     level = "fault_enumeration"
     design_ref = "DESIGN.md 3.2"
     tiers = {"quick": {"runs": 144, "budget_s": 85, "chunk": 1, "twice_every": 8, "shrink_s": 60},
-             "thorough": {"runs": 4000, "budget_s": 780, "chunk": 1, "twice_every": 16, "shrink_s": 180, "grace_s": 400}}
+             "thorough": {"runs": 4000, "budget_s": 780, "chunk": 1, "twice_every": 16, "shrink_s": 180, "grace_s": 600}}
     rule = ("one evaluation = one (experiment, configuration, schedule) whose finished transaction log F (plain or .gz, written by "
             "simulated workers so the record order is schedule dependent) is cut at crash offsets n and resumed by a freshly built "
             "identical experiment with recording evaluators (in-process, or on simulated workers for a sample; second-generation "
